@@ -600,6 +600,53 @@ func (e *execState) directOracles(bo *blockObs) {
 		}
 	}
 
+	// ---------- C19: an auction that no operation of this block names and that passes no boundary does not change
+	{
+		named := map[uint64]bool{}
+		for i := range bo.Blk.Pre {
+			named[bo.Blk.Pre[i].AuctionID] = true
+		}
+		for i := range bo.Blk.Txs {
+			m := &bo.Blk.Txs[i].Msg
+			switch m.Kind {
+			case KPlaceBid, KModifyBid, KCancel, KAddAllowed:
+				named[m.AuctionID] = true
+			case KSend:
+				if m.ToKind != "actor" {
+					named[m.ToAuction] = true
+				}
+			}
+		}
+		for i := range cur.Auctions {
+			a := &cur.Auctions[i]
+			pa := prevAuction(prev, a.ID)
+			if pa == nil || named[a.ID] {
+				continue
+			}
+			due := false
+			switch pa.Status {
+			case StStandby:
+				due = pa.StartNs <= t
+			case StStarted:
+				due = pa.EndTimes[len(pa.EndTimes)-1] <= t
+			case StVesting:
+				due = true // releases are checked by C09's oracle
+			}
+			if due {
+				continue
+			}
+			if fmt.Sprintf("%+v", *pa) != fmt.Sprintf("%+v", *a) {
+				V("C19", "frame.untouched_auction_changed", "record", fmt.Sprintf("auction %d was not named by any operation of block %d and passed no boundary, but its records changed: %+v -> %+v", a.ID, bi, *pa, *a))
+			}
+			for _, addr := range []string{a.SellEscrow, a.PayEscrow, a.VestEscrow} {
+				if fmt.Sprint(prev.Bal[addr]) != fmt.Sprint(cur.Bal[addr]) {
+					V("C19", "frame.untouched_auction_changed", "escrow", fmt.Sprintf("auction %d was not named by any operation of block %d and passed no boundary, but its escrow %s changed: %v -> %v", a.ID, bi, short(addr), prev.Bal[addr], cur.Bal[addr]))
+				}
+			}
+			res.Stats.Probes["untouched_auction_frames_checked"]++
+		}
+	}
+
 	// ---------- C19: immutable terms, ids
 	for i := range cur.Auctions {
 		a := cur.Auctions[i]
